@@ -46,11 +46,14 @@ pub(crate) fn post_update(roc0: u32, last0: Option<u16>, seq: u16, roc: u32, roc
 
 #[kani::proof_for_contract(SrtpContext::estimate_roc)]
 fn c04_estimate_roc_contract() {
-    let c = lit_ctx(any_profile());
+    let mut c = lit_ctx(any_profile());
+    let old = (c.rollover_counter, c.last_sequence, c.rtcp_index);
     let seq: u16 = kani::any();
     let r = c.estimate_roc(seq);
-    // same predicate as the in-place contract; lets a counterexample be replayed natively
-    assert!(post_estimate_roc(c.rollover_counter, c.last_sequence, seq, r));
+    // same predicates as the in-place contract; lets a counterexample be replayed natively
+    assert!(post_estimate_roc(old.0, old.1, seq, r));
+    // frame: estimating must not touch the receiver state (it runs BEFORE authentication)
+    assert!((c.rollover_counter, c.last_sequence, c.rtcp_index) == old);
 }
 
 #[kani::proof_for_contract(SrtpContext::update)]
@@ -65,7 +68,7 @@ fn c04_update_contract() {
 /// canary: a false claim about estimate_roc must FAIL (vacuity / pipeline self-check)
 #[kani::proof]
 fn canary_estimate_roc_always_roc() {
-    let c = lit_ctx(SrtpProfile::Aes128Sha1_80);
+    let mut c = lit_ctx(SrtpProfile::Aes128Sha1_80);
     let r = c.estimate_roc(kani::any());
     assert!(r == c.rollover_counter);
 }
@@ -118,21 +121,21 @@ fn spec_iv_gcm_rtcp(salt: &[u8], ssrc: u32, index: u32) -> [u8; 12] {
 #[kani::proof]
 #[kani::unwind(18)]
 fn c04_build_iv_spec() {
-    let c = lit_ctx(any_profile());
+    let mut c = lit_ctx(any_profile());
     let (seq, roc): (u16, u32) = (kani::any(), kani::any());
     assert!(c.build_iv(seq, roc) == spec_iv_aes_cm(&c.rtp_keys.salt, c.ssrc, roc, seq));
 }
 #[kani::proof]
 #[kani::unwind(18)]
 fn c04_build_gcm_nonce_spec() {
-    let c = lit_ctx(any_profile());
+    let mut c = lit_ctx(any_profile());
     let (seq, roc): (u16, u32) = (kani::any(), kani::any());
     assert!(c.build_gcm_nonce(seq, roc) == spec_iv_gcm_rtp(&c.rtp_keys.salt, c.ssrc, roc, seq));
 }
 #[kani::proof]
 #[kani::unwind(18)]
 fn c04_build_gcm_rtcp_nonce_spec() {
-    let c = lit_ctx(any_profile());
+    let mut c = lit_ctx(any_profile());
     let index: u32 = kani::any();
     assert!(c.build_gcm_rtcp_nonce(index) == spec_iv_gcm_rtcp(&c.rtcp_keys.salt, c.ssrc, index));
 }
